@@ -7,6 +7,10 @@ package main
 //   int64(math.Pow(2, float64(e)))  and  int64(math.Pow(2, math.Abs(float64(e))))   (exact powers of two)
 //   v, err := f(…); if err != nil { return …, err }                                  (error propagation)
 //   err, ok := validateIndexExists(…); if !ok { return …, err }                      (ditto, through the bool)
+//   for init; cond; post { int64 statements }      → an auxiliary structurally recursive definition <fn>_loop<k> with FUEL
+//                                                     (state = the variables assigned in the loop; the function gets a first
+//                                                     parameter `fuel : Nat`; the tie theorem is about every sufficient fuel)
+//   idx := strings.Split(id, "/"); v, _ := strconv.ParseInt(idx[k], 10, 64)     → the parameter id_k (the parsed field)
 // Result types: int64 → Int; bool → Bool; (int64, error) → Outcome Int; (int64, int64, error) → Outcome (Int × Int);
 // (error, bool) → Bool (the error value carries no information beyond the bool); tuples of int64 → products.
 // Anything else makes the translator REFUSE the function: it then emits `def Gen.<name>_untranslatable : String := "<why>"`
@@ -35,6 +39,7 @@ var targets = []target{
 	{"transform", "ConvertAltitudekeyToMinMaxZ"},
 	{"integrate", "HorizontalZoomMinMax"},
 	{"detector", "offsetFIndex"},
+	{"transform", "convertHorizontalIDToQuadkey"},
 }
 
 type retKind int
@@ -63,6 +68,13 @@ type translator struct {
 	recv    string            // receiver name of the method being translated ("" for functions): recv.f becomes the parameter recv_f
 	errVars map[string]string // err variable → "call" (bound by let-else, so `if err != nil` is dead) or "ok:<var>"
 	fail    string
+	// loops and string-ID parameters (functions translated with fuel)
+	fnName    string            // name of the function being translated
+	scope     []string          // Int variables in scope, in declaration order (parameters first)
+	aux       strings.Builder   // auxiliary definitions (one per loop) emitted before the function
+	loops     int               // loops translated so far in the current function
+	strParams map[string]int    // string parameter → number of '/'-separated fields read from it
+	splitVars map[string]string // slice variable → the string parameter it is the strings.Split(·, "/") of
 }
 
 func (t *translator) failf(format string, a ...interface{}) {
@@ -369,6 +381,7 @@ func (t *translator) block(stmts []ast.Stmt, ind string, declared map[string]boo
 							val = t.intExpr(vs.Values[j])
 						}
 						sb.WriteString(ind + "let mut " + n.Name + " : Int := " + val + "\n")
+						t.scope = append(t.scope, n.Name)
 					} else if typeStr(vs.Type) == "error" {
 						// an error variable: carries no information in the model
 					} else {
@@ -377,7 +390,44 @@ func (t *translator) block(stmts []ast.Stmt, ind string, declared map[string]boo
 					declared[n.Name] = true
 				}
 			}
+		case *ast.ForStmt:
+			sb.WriteString(t.forLoop(v, ind, declared))
 		case *ast.AssignStmt:
+			// idx := strings.Split(id, "/") on a string parameter: remembered, nothing emitted
+			if len(v.Lhs) == 1 && len(v.Rhs) == 1 {
+				if call, ok := v.Rhs[0].(*ast.CallExpr); ok && exprStr(call.Fun) == "strings.Split" && len(call.Args) == 2 && exprStr(call.Args[1]) == `"/"` {
+					if _, isParam := t.strParams[exprStr(call.Args[0])]; isParam {
+						t.splitVars[exprStr(v.Lhs[0])] = exprStr(call.Args[0])
+						continue
+					}
+				}
+			}
+			// v, _ := strconv.ParseInt(idx[k], 10, 64): the k-th field of the ID, as parsed (the error is dropped by the Go code)
+			if len(v.Lhs) == 2 && len(v.Rhs) == 1 && exprStr(v.Lhs[1]) == "_" {
+				if call, ok := v.Rhs[0].(*ast.CallExpr); ok && exprStr(call.Fun) == "strconv.ParseInt" && len(call.Args) == 3 &&
+					exprStr(call.Args[1]) == "10" && exprStr(call.Args[2]) == "64" {
+					if ix, ok := call.Args[0].(*ast.IndexExpr); ok {
+						if prm, ok := t.splitVars[exprStr(ix.X)]; ok {
+							if lit, ok := ix.Index.(*ast.BasicLit); ok && lit.Kind == token.INT {
+								k := 0
+								fmt.Sscanf(lit.Value, "%d", &k)
+								if k+1 > t.strParams[prm] {
+									t.strParams[prm] = k + 1
+								}
+								name := exprStr(v.Lhs[0])
+								if v.Tok == token.DEFINE && !declared[name] {
+									sb.WriteString(fmt.Sprintf("%slet mut %s : Int := %s_%d\n", ind, name, prm, k))
+									declared[name] = true
+									t.scope = append(t.scope, name)
+								} else {
+									sb.WriteString(fmt.Sprintf("%s%s := %s_%d\n", ind, name, prm, k))
+								}
+								continue
+							}
+						}
+					}
+				}
+			}
 			// multi-value call: v, err := f(…)   /   err, ok := validateIndexExists(…)   /   _, ok = …
 			if len(v.Rhs) == 1 {
 				if call, ok := v.Rhs[0].(*ast.CallExpr); ok && len(v.Lhs) >= 2 {
@@ -400,6 +450,7 @@ func (t *translator) block(stmts []ast.Stmt, ind string, declared map[string]boo
 						if i+1 < len(stmts) && isErrNilCheck(stmts[i+1], errName) {
 							sb.WriteString(ind + "let .ok " + val + " := " + callStr + " | return .err\n")
 							declared[val] = true
+							t.scope = append(t.scope, val)
 							i++ // the `if err != nil { return …, err }` is now dead
 							continue
 						}
@@ -443,6 +494,7 @@ func (t *translator) block(stmts []ast.Stmt, ind string, declared map[string]boo
 						if v.Tok == token.DEFINE && !declared[name] {
 							sb.WriteString(ind + "let mut " + name + " : Int := " + tmps[k] + "\n")
 							declared[name] = true
+							t.scope = append(t.scope, name)
 						} else {
 							sb.WriteString(ind + name + " := " + tmps[k] + "\n")
 						}
@@ -466,6 +518,9 @@ func (t *translator) block(stmts []ast.Stmt, ind string, declared map[string]boo
 			case token.DEFINE:
 				sb.WriteString(ind + "let mut " + name + " : Int := " + rhs + "\n")
 				declared[name] = true
+				if !isBool {
+					t.scope = append(t.scope, name)
+				}
 			case token.ASSIGN:
 				sb.WriteString(ind + name + " := " + rhs + "\n")
 			case token.ADD_ASSIGN:
@@ -562,16 +617,22 @@ func (t *translator) function(fn *ast.FuncDecl, info fnInfo) string {
 	t.bools = map[string]bool{}
 	t.named = nil
 	t.fail = ""
-	var params []string
+	t.fnName = fn.Name.Name
+	t.scope = nil
+	t.aux.Reset()
+	t.loops = 0
+	t.strParams = map[string]int{}
+	t.splitVars = map[string]string{}
 	for _, f := range fn.Type.Params.List {
 		ty := typeStr(f.Type)
 		for _, n := range f.Names {
 			switch ty {
 			case "int64":
-				params = append(params, "("+n.Name+" : Int)")
+				t.scope = append(t.scope, n.Name)
 			case "bool":
-				params = append(params, "("+n.Name+" : Bool)")
 				t.bools[n.Name] = true
+			case "string":
+				t.strParams[n.Name] = 0 // an ID: its '/'-separated fields become parameters <name>_<k> as they are read
 			default:
 				t.failf("unsupported parameter type %s", ty)
 			}
@@ -590,12 +651,203 @@ func (t *translator) function(fn *ast.FuncDecl, info fnInfo) string {
 	}
 	body := t.block(fn.Body.List, "  ", map[string]bool{})
 	name := fn.Name.Name
+	var params []string
+	if t.loops > 0 {
+		params = append(params, "(fuel : Nat)")
+	}
+	for _, f := range fn.Type.Params.List {
+		ty := typeStr(f.Type)
+		for _, n := range f.Names {
+			switch ty {
+			case "int64":
+				params = append(params, "("+n.Name+" : Int)")
+			case "bool":
+				params = append(params, "("+n.Name+" : Bool)")
+			case "string":
+				if t.strParams[n.Name] == 0 {
+					t.failf("string parameter %s is not read through strings.Split(%s, \"/\") and strconv.ParseInt", n.Name, n.Name)
+				}
+				for k := 0; k < t.strParams[n.Name]; k++ {
+					params = append(params, fmt.Sprintf("(%s_%d : Int)", n.Name, k))
+				}
+			}
+		}
+	}
 	if t.fail != "" {
 		return fmt.Sprintf("/-- NOT TRANSLATED: %s -/\ndef %s_untranslatable : String := %s\n\n", t.fail, name, leanStr(t.fail))
 	}
 	// silence "unused mutable" by a final reference is unnecessary: Lean only warns
-	return fmt.Sprintf("/-- literal translation of `%s` (%s) -/\ndef %s %s : %s := Id.run do\n%s%s\n",
+	return t.aux.String() + fmt.Sprintf("/-- literal translation of `%s` (%s) -/\ndef %s %s : %s := Id.run do\n%s%s\n",
 		name, filepath.Base(fset.Position(fn.Pos()).Filename), name, strings.Join(params, " "), leanRet(info), pre.String(), body)
+}
+
+// forLoop: `for init; cond; post { body }` whose body consists of supported int64 statements without return/break/continue.
+// The loop becomes a structurally recursive auxiliary definition over FUEL: its state is the variables assigned in the body,
+// the post statement and the initialiser; every other Int variable in scope that the loop reads is passed unchanged.
+func (t *translator) forLoop(f *ast.ForStmt, ind string, declared map[string]bool) string {
+	line := fset.Position(f.Pos()).Line
+	if f.Cond == nil {
+		t.failf("loop at line %d has no condition", line)
+		return ""
+	}
+	bad := false
+	ast.Inspect(f.Body, func(n ast.Node) bool {
+		switch n.(type) {
+		case *ast.ReturnStmt, *ast.BranchStmt, *ast.ForStmt, *ast.RangeStmt:
+			bad = true
+		}
+		return true
+	})
+	if bad {
+		t.failf("loop at line %d contains return/break/continue or a nested loop", line)
+		return ""
+	}
+	var sb strings.Builder
+	// initialiser, in the enclosing block
+	if f.Init != nil {
+		sb.WriteString(t.block([]ast.Stmt{f.Init}, ind, declared))
+	}
+	// state variables: assigned in body or post (and not declared inside the body), in order of first assignment
+	local := map[string]bool{}
+	var state []string
+	seen := map[string]bool{}
+	addState := func(name string) {
+		if name != "_" && !local[name] && !seen[name] {
+			seen[name] = true
+			state = append(state, name)
+		}
+	}
+	collect := func(n ast.Node) {
+		ast.Inspect(n, func(n ast.Node) bool {
+			switch v := n.(type) {
+			case *ast.AssignStmt:
+				for _, l := range v.Lhs {
+					if id, ok := l.(*ast.Ident); ok {
+						if v.Tok == token.DEFINE && !seen[id.Name] {
+							local[id.Name] = true
+						} else {
+							addState(id.Name)
+						}
+					}
+				}
+			case *ast.IncDecStmt:
+				if id, ok := v.X.(*ast.Ident); ok {
+					addState(id.Name)
+				}
+			case *ast.DeclStmt:
+				if gd, ok := v.Decl.(*ast.GenDecl); ok {
+					for _, sp := range gd.Specs {
+						if vs, ok := sp.(*ast.ValueSpec); ok {
+							for _, nm := range vs.Names {
+								local[nm.Name] = true
+							}
+						}
+					}
+				}
+			}
+			return true
+		})
+	}
+	if as, ok := f.Init.(*ast.AssignStmt); ok {
+		for _, l := range as.Lhs {
+			addState(exprStr(l))
+		}
+	}
+	collect(f.Body)
+	if f.Post != nil {
+		collect(f.Post)
+	}
+	inScope := map[string]bool{}
+	for _, n := range t.scope {
+		inScope[n] = true
+	}
+	for _, n := range state {
+		if !inScope[n] || t.bools[n] {
+			t.failf("loop at line %d assigns %s, which is not an int64 variable in scope", line, n)
+			return ""
+		}
+	}
+	// read-only variables: in scope, not state, mentioned in the loop
+	used := map[string]bool{}
+	for _, n := range []ast.Node{f.Cond, f.Body, f.Post} {
+		if n == nil || n == ast.Node((*ast.BlockStmt)(nil)) {
+			continue
+		}
+		ast.Inspect(n, func(n ast.Node) bool {
+			if id, ok := n.(*ast.Ident); ok {
+				used[id.Name] = true
+			}
+			return true
+		})
+	}
+	var ro []string
+	roSeen := map[string]bool{}
+	for _, n := range t.scope {
+		if used[n] && !seen[n] && !roSeen[n] && !t.bools[n] {
+			roSeen[n] = true
+			ro = append(ro, n)
+		}
+	}
+	t.loops++
+	lname := fmt.Sprintf("%s_loop%d", t.fnName, t.loops)
+	tuple := func(xs []string) string {
+		if len(xs) == 1 {
+			return xs[0]
+		}
+		return "(" + strings.Join(xs, ", ") + ")"
+	}
+	// the auxiliary definition
+	savedScope := append([]string(nil), t.scope...)
+	inner := map[string]bool{}
+	for k := range declared {
+		inner[k] = true
+	}
+	body := t.block(f.Body.List, "      ", inner)
+	post := ""
+	if f.Post != nil {
+		post = t.block([]ast.Stmt{f.Post}, "      ", inner)
+	}
+	t.scope = savedScope
+	var a strings.Builder
+	a.WriteString(fmt.Sprintf("/-- the loop at line %d of `%s`: `for …; %s; … { … }`, state %s, at most `fuel` iterations -/\n", line, t.fnName, exprStr(f.Cond), tuple(state)))
+	a.WriteString("def " + lname)
+	for _, n := range ro {
+		a.WriteString(" (" + n + " : Int)")
+	}
+	a.WriteString(" : Nat")
+	for range state {
+		a.WriteString(" → Int")
+	}
+	a.WriteString(" → " + strings.TrimSuffix(strings.Repeat("Int × ", len(state)), " × ") + "\n")
+	a.WriteString("  | 0, " + strings.Join(state, ", ") + " => " + tuple(state) + "\n")
+	a.WriteString("  | fuel + 1, " + strings.Join(state, ", ") + " =>\n")
+	a.WriteString("    if " + t.propExpr(f.Cond) + " then Id.run do\n")
+	for _, n := range state {
+		a.WriteString("      let mut " + n + " : Int := " + n + "\n")
+	}
+	if strings.TrimSpace(body) != "pure ()" {
+		a.WriteString(body)
+	}
+	if strings.TrimSpace(post) != "pure ()" {
+		a.WriteString(post)
+	}
+	a.WriteString("      return " + lname + " " + strings.Join(append(append([]string{}, ro...), "fuel"), " ") + " " + strings.Join(state, " ") + "\n")
+	a.WriteString("    else " + tuple(state) + "\n\n")
+	t.aux.WriteString(a.String())
+	// the call, in the enclosing block
+	res := fmt.Sprintf("loop%d_res", t.loops)
+	sb.WriteString(ind + "let " + res + " := " + lname + " " + strings.Join(append(append([]string{}, ro...), "fuel"), " ") + " " + strings.Join(state, " ") + "\n")
+	for k, n := range state {
+		proj := res
+		if len(state) > 1 {
+			proj += strings.Repeat(".2", k)
+			if k < len(state)-1 {
+				proj += ".1"
+			}
+		}
+		sb.WriteString(ind + n + " := " + proj + "\n")
+	}
+	return sb.String()
 }
 
 // structMethod: a method on a struct of int64 fields that returns a pointer to a new struct of the same type built by a keyed
